@@ -88,6 +88,7 @@ type Case struct {
 	Wrap      string       `json:"wrap"` // "" = all commands, "none", "probe"
 	Editor    string       `json:"editor"`
 	Hold      bool         `json:"hold"`    // the terminal holds its answers to cursor queries from the start of every session
+	HistSnap  bool         `json:"histsnap"` // log the contents of the bound sources in every begin/end event
 	Local     string       `json:"local"`   // local keymap set by the probe command "probe-setlocal"
 	RawOut    bool         `json:"rawout"`  // log the raw bytes written to the tty at every wait
 	DumpCfg   bool         `json:"dumpcfg"` // log the bind tables and variables after set-up
@@ -492,10 +493,16 @@ func runCase(cs *Case, ci int, pty *ptyPair, em *emu, home string) (alive bool) 
 			cmds[name] = func() {
 				m := snap()
 				m["ev"], m["cmd"], m["keys"] = "begin", name, ints(rl.Keys.Caller())
+				if cs.HistSnap {
+					m["hsrc"] = dumpSources()
+				}
 				logj(m)
 				fn()
 				m = snap()
 				m["ev"], m["cmd"] = "end", name
+				if cs.HistSnap {
+					m["hsrc"] = dumpSources()
+				}
 				logj(m)
 			}
 		}
